@@ -51,10 +51,47 @@ def region(fn, start, stop):
     return seen
 
 
+def switch_join(fn, sw_block):
+    """the block control reaches after a `break` out of this switch.  The immediate post-dominator is that block
+    unless some arm returns (then only the function exit post-dominates): in that case take the nearest block that
+    every arm which does not leave the function can reach."""
+    j = ipdom(fn, sw_block.id)
+    if j is not None and j != fn.exit:
+        return j
+    arms = [s for s in sw_block.succs if s is not None]
+    reach = []
+    for a in arms:
+        r = region(fn, a, set())
+        if r - {fn.exit}:
+            reach.append(r)
+    if not reach:
+        return j
+    common = set.intersection(*reach) - {fn.exit}
+    # arms that return at once have no common successor with the others: ignore arms whose reach misses the majority's
+    if not common and len(reach) > 2:
+        from collections import Counter
+        cnt = Counter(b for r in reach for b in r)
+        common = {b for b, c in cnt.items() if c >= len(reach) - 1} - {fn.exit}
+    if not common:
+        return j
+    # nearest in breadth-first order from the switch
+    dist = {sw_block.id: 0}
+    q = [sw_block.id]
+    while q:
+        x = q.pop(0)
+        for s_ in fn.blocks[x].succs:
+            if s_ is not None and s_ not in dist:
+                dist[s_] = dist[x] + 1
+                q.append(s_)
+    # the join dominates the rest of the common blocks: it is the common block from which all other common blocks are reachable
+    best = min(common, key=lambda b: (0 if all(c == b or c in region(fn, b, set()) for c in common) else 1, dist.get(b, 1 << 30)))
+    return best
+
+
 def arm_region(fn, sw_block, arm_start):
     """blocks of one switch arm up to the switch's join; fall-through into the
     next case label is included (C semantics)."""
-    j = ipdom(fn, sw_block.id)
+    j = switch_join(fn, sw_block)
     stop = {j} if j is not None else set()
     return region(fn, arm_start, stop)
 
